@@ -47,7 +47,11 @@ def specFields (w : Bytes) : String :=
     `specbraces w` — bash's brace expansion (spec), raw text;
     `specfields w` / `bashref w` — bash's expansion after quote removal, empty words dropped
        (`bashref`: the harness puts real bash's answer in the implementation column);
-    `regular w` — the decidable side condition of `bash_equiv_partial`. -/
+    `specseqagree w` — for a word that is one valid sequence: bash's `expand_seqterm` must read
+       it with the parameters `bracesSeqRec` computes (hypothesis `seqsAgree` of
+       `bash_equiv_partial`);
+    `canon w` — does the split tree satisfy the hypotheses of `bash_equiv_partial`
+       (distribution information only). -/
 def handle (args : List String) : String :=
   match args with
   | [op, hw] =>
@@ -71,6 +75,16 @@ def handle (args : List String) : String :=
       else if op = "specbraces" then specBraces w
       else if op = "specfields" then specFields w
       else if op = "bashref" then specFields w
+      else if op = "specseqagree" then
+        match (splitBraces w).1 with
+        | [.brace true elems, .lit []] => if seqAgree elems then "true" else "false"
+        | _ => "notseq"
+      else if op = "canon" then
+        let t := (splitBraces w).1
+        let t' := match t.reverse with
+          | .lit [] :: r => r.reverse
+          | _ => t
+        if canon t' && seqsAgree t' && noOv t' then "true" else "false"
       else "bad-op"
   | _ => "bad-op"
 
